@@ -56,7 +56,17 @@ def cterm(t):
         return f"(RBin vadd {cterm(t[1])} {cterm(t[2])})"
     if k == "raise":
         return "(RRaise (UserError 5))"
+    if k == "recerr":
+        return "(RRaise RecursionError)"
+    if k == "dep":
+        pools_ = clist(clist(chist(h) for h in d) for d in t[2])
+        tbl = clist(f"({ckey(key)}, {_cval(v)})" for key, v in t[3])
+        return f"(dep_foreach {pools_} {tbl})"
     raise ValueError(k)
+
+
+def _cval(t):
+    return f"(VOut {cq(t[1])})" if t[0] == "out" else f"(VHist {chist(t[1])})"
 
 
 def ckey(key):
@@ -185,6 +195,28 @@ def run_mech_impl(mech, calls, fault=None, use_foreach=False, base_exception=Fal
             return a + ev(t[2])
         if k == "raise":
             raise Marker("table")
+        if k == "recerr":
+            raise RecursionError("callback bottomed out the stack")
+        if k == "dep":
+            # the deprecated, context-free spellings called from inside a callback
+            from dyce import P
+            tbl = {tuple(tuple(tuple(o) for o in r) for r in key): v for key, v in t[3]}
+            names2 = [f"d{j}" for j in range(len(t[2]))]
+
+            def val(v):
+                return gens.py_outcome(v[1]) if v[0] == "out" else H(gens.py_hist_dict(v[1]))
+            if t[1] == "p":
+                def cb2(**kw):
+                    key = tuple(tuple(tuple(qv(x)) for x in kw[nm]) for nm in names2)
+                    v = tbl.get(key)
+                    return 0 if v is None else val(v)
+                return P.foreach(cb2, **{nm: pools.py_pool(d) for nm, d in zip(names2, t[2])})
+
+            def cb3(**kw):
+                key = tuple((tuple(qv(kw[nm])),) for nm in names2)
+                v = tbl.get(key)
+                return 0 if v is None else val(v)
+            return H.foreach(cb3, **{nm: H(gens.py_hist_dict(d[0])) for nm, d in zip(names2, t[2])})
         raise ValueError(k)
 
     def make(i):
@@ -279,6 +311,10 @@ class Budget(Exception):
     pass
 
 
+class RecErr(Exception):
+    pass
+
+
 def oracle_calls(mech, calls, fault=None, budget=20000):
     """list of {'dist': {...}} / {'exc': name}; None when the budget is exceeded.
     Top-level calls are independent (that is the property C14)."""
@@ -322,6 +358,25 @@ def oracle_calls(mech, calls, fault=None, budget=20000):
             return a + b
         if k == "raise":
             raise Marker("table")
+        if k == "recerr":
+            raise RecErr()
+        if k == "dep":
+            srcs2 = [{"p": d} for d in t[2]]
+            tbl2 = {tuple(tuple(tuple(o) for o in r) for r in key): v for key, v in t[3]}
+            mix, wsum = {}, Fraction(0)
+            for combo in itertools.product(*[src_results(x) for x in srcs2]):
+                cnt = 1
+                for _, c in combo:
+                    cnt *= c
+                key = tuple(tuple(tuple(pools.fq(x)) for x in r) for r, _ in combo)
+                v = tbl2.get(key, ["out", [0, 1]])
+                d = {Fraction(*v[1]): Fraction(1)} if v[0] == "out" else dist_of_items(v[1])
+                if not d:
+                    continue
+                wsum += cnt
+                for x, px in d.items():
+                    mix[x] = mix.get(x, 0) + cnt * px
+            return ("hist", {x: px / wsum for x, px in mix.items() if px} if wsum else {}, 1)
         raise ValueError(k)
 
     def spec(i, lim, ctx):
@@ -350,7 +405,11 @@ def oracle_calls(mech, calls, fault=None, budget=20000):
                 raise Budget()   # fault positions are decided by the model, not by this oracle
             key = tuple(tuple(tuple(pools.fq(x)) for x in r) for r, _ in combo)
             term = tables[i].get(key)
-            v = Fraction(0) if term is None else ev(term, (nl, depth + 1, prec * p))
+            try:
+                v = Fraction(0) if term is None else ev(term, (nl, depth + 1, prec * p))
+            except RecErr:
+                # only RecursionError is converted: THIS branch becomes the sentinel
+                v = ("hist", dist_of_items(st["sentinel"]), 1)
             if isinstance(v, tuple):
                 if not v[1]:
                     continue        # empty / zero-total histogram: dropped, the rest renormalised
